@@ -263,6 +263,19 @@ func (w *c16World) check() (string, string) {
 		}
 		for s := range w.lastRevoked[n] {
 			if !on[s] {
+				// A certificate revoked while its own issuer was absent is parked on another
+				// issuer's CRL; when its issuer comes back the entry moves to that issuer's CRL,
+				// where the main clause below requires it. Only entries of certificates THIS
+				// issuer issued must never leave its CRL.
+				foreign := false
+				for _, c := range w.certs {
+					if c.cert.SerialNumber.String() == s && c.issuer != n {
+						foreign = true
+					}
+				}
+				if foreign {
+					continue
+				}
 				return "crl-entry-disappeared", fmt.Sprintf("serial %s was on issuer %s's CRL and is unexpired, but is no longer listed", s, n)
 			}
 		}
